@@ -30,7 +30,10 @@
 (***************************************************************************)
 EXTENDS PkgUniverse
 
-CONSTANT TraceOn      \* TRUE: S.hist records every call of a tapped function (trace validation)
+CONSTANTS TraceOn,    \* TRUE: S.hist records every call of a tapped function (trace validation)
+          Old         \* model-only regression switch: names of FIXED defects whose old behaviour is transcribed instead of the
+                      \* current code ({}: the current code).  "bindfirst": _resolve_target bound _target before registering on
+                      \* the final target.  (Loader.tla: "starpath", "expwild", "sideload", "wildcycle")
 
 \* ---- ordered dictionaries (sequences of [n, o]) -----------------------------------------------------
 Has(mm, n) == \E k \in 1..Len(mm) : mm[k].n = n
@@ -105,11 +108,12 @@ RefsOf(S, o) == IF o \in DOMAIN S.brefs THEN S.brefs[o] ELSE <<>>
 
 \* ---- RT: Alias.resolve_target / _resolve_target ---------------------------------------------------------
 RTBind(S, t, r) ==
-  \*   self._target = resolved
-  \*   if self.parent is not None: self._target.aliases[self.path] = self      (aliases of an Alias = those of its final target)
-  LET S1 == [S EXCEPT !.al[t.a].tgt = r] IN
+  \* current code:   if self.parent is not None: resolved.aliases[self.path] = self     (aliases of an Alias = those of its final
+  \*                 self._target = resolved                                             target: walks the chain, may raise)
+  \* "bindfirst":    self._target = resolved ; if self.parent is not None: self._target.aliases[self.path] = self
+  LET S1 == IF "bindfirst" \in Old THEN [S EXCEPT !.al[t.a].tgt = r] ELSE S IN
   IF IsAl(S, r) THEN CallF(S1, [t EXCEPT !.st = "bound", !.cur = r], Fr("FT", r))
-  ELSE Return([AddRef(S1, r, t.a) EXCEPT !.al[t.a].passed = FALSE], Nil)
+  ELSE Return([AddRef(S1, r, t.a) EXCEPT !.al[t.a].passed = FALSE, !.al[t.a].tgt = r], Nil)
 
 StepRT(S, t) ==
   LET a == t.a
@@ -135,9 +139,10 @@ StepRT(S, t) ==
          \*   except CyclicAliasError as error: raise CyclicAliasError([self.target_path, *error.chain])
          IF S.exc # "" THEN Throw(Clear(S), S.exc) ELSE RTBind(S, t, t.cur)
     [] t.st = "bound" ->
-         \* the back-reference lives on the FINAL target: an error here leaves self._target already set
+         \* the back-reference lives on the FINAL target.  Current code: an error here leaves the alias unresolved;
+         \* "bindfirst": self._target was already set
          IF S.exc # "" THEN Throw(Clear(S), S.exc)
-         ELSE Return(Clear(AddRef(S, S.ret, a)), Nil)
+         ELSE Return(Clear([AddRef(S, S.ret, a) EXCEPT !.al[a].tgt = t.cur]), Nil)
     [] OTHER -> Throw(S, "OTHER")
 
 \* ---- FT: Alias.final_target ------------------------------------------------------------------------------
